@@ -14,9 +14,9 @@ import (
 	"testing/synctest"
 	"time"
 
-	"verifharness/internal/gen"
-	"verifharness/internal/h"
-	"verifharness/internal/jws"
+	"verifharness/pkg/gen"
+	"verifharness/pkg/h"
+	"verifharness/pkg/jws"
 
 	"github.com/dunglas/mercure"
 	"github.com/gofrs/uuid"
